@@ -552,6 +552,7 @@ def rule_R6(ctx):
             ctx.cannot("R6", fam + ":worker_loop", "%d worker_loop bodies in %s" % (len(c), crate))
             continue
         W.received_consumed(ctx, P, fam, c[0], "R6")
+        W.batch_complete(ctx, P, fam, c[0], "R6")
 
 
 def rule_once(ctx):
